@@ -58,6 +58,7 @@ pub struct Report {
     pub digest: u64,
     pub observed: u64,
     pub selfcheck_terms: u64,
+    pub unsat_by_core: u64,
 }
 
 // ---------------------------------------------------------------- panic capture
@@ -110,6 +111,8 @@ pub struct Solver {
     pub errors: Vec<String>,
     pub name: String,
     log: Option<std::fs::File>,
+    pub cores: bool,
+    proxied: Vec<bool>,
 }
 
 impl Solver {
@@ -128,11 +131,13 @@ impl Solver {
         let sin = child.stdin.take().unwrap();
         let sout = BufReader::new(child.stdout.take().unwrap());
         let log = std::env::var("SYMX_SMTLOG").ok().map(|p| std::fs::File::create(p).unwrap());
-        let mut s = Solver { child, sin, sout, defined: vec![], declared: 0, errors: vec![], name: which.clone(), log };
+        let mut s = Solver { child, sin, sout, defined: vec![], declared: 0, errors: vec![], name: which.clone(), log, cores: false, proxied: vec![] };
         if which == "cvc5" {
             s.send("(set-logic QF_LIA)");
         } else {
             s.send("(set-option :produce-models true)");
+            s.send("(set-option :produce-unsat-cores true)");
+            s.cores = true;
         }
         s
     }
@@ -213,7 +218,20 @@ impl Solver {
         let mut q = String::with_capacity(16 + lits.len() * 8);
         q.push_str("(check-sat-assuming (");
         for l in lits {
-            q.push_str(&c.store.rf(*l));
+            if self.cores && c.store.needs_def(*l) {
+                // named proxy literal (p => t): lets the solver report UNSAT cores by name
+                if self.proxied.len() <= *l as usize {
+                    self.proxied.resize(c.store.len().max(*l as usize + 1), false);
+                }
+                if !self.proxied[*l as usize] {
+                    self.send(&format!("(declare-const p{} Bool)", l));
+                    self.send(&format!("(assert (=> p{} t{}))", l, l));
+                    self.proxied[*l as usize] = true;
+                }
+                q.push_str(&format!("p{}", l));
+            } else {
+                q.push_str(&c.store.rf(*l));
+            }
             q.push(' ');
         }
         q.push_str("))");
@@ -227,6 +245,30 @@ impl Solver {
                 None
             }
         }
+    }
+    /// after an UNSAT answer: the subset of the assumption literals that is already contradictory
+    fn unsat_core(&mut self) -> Option<Vec<TermId>> {
+        if !self.cores {
+            return None;
+        }
+        self.send("(get-unsat-core)");
+        let s = self.read_sexp();
+        if s.contains("(error") {
+            self.errors.push(s);
+            return None;
+        }
+        let mut out = vec![];
+        for tok in s.replace('(', " ").replace(')', " ").split_whitespace() {
+            if let Some(n) = tok.strip_prefix('p') {
+                match n.parse::<u32>() {
+                    Ok(id) => out.push(id),
+                    Err(_) => return None,
+                }
+            } else {
+                return None; // something we do not understand: do not cache
+            }
+        }
+        Some(out)
     }
     fn model(&mut self, c: &ctx::Ctx) -> Option<Vec<i64>> {
         if c.inputs.is_empty() {
@@ -306,6 +348,7 @@ pub fn explore(limits: &Limits, seed: u64, symbolic: bool, initial: &[(String, i
     let mut stack: Vec<Item> = vec![Item { bound: 0, model: vec![], expect: vec![] }];
     let mut first = true;
     rep.complete = true;
+    let mut cores: std::collections::HashMap<TermId, Vec<Vec<TermId>>> = std::collections::HashMap::new();
 
     while let Some(item) = stack.pop() {
         if rep.paths >= limits.max_paths || start.elapsed().as_secs_f64() > limits.max_secs || rep.violations.len() >= limits.max_violations {
@@ -481,7 +524,11 @@ pub fn explore(limits: &Limits, seed: u64, symbolic: bool, initial: &[(String, i
             // ---- expansion
             if !diverged || item.bound == 0 {
                 let c = ctx::lock();
+                let mut prefix_set: std::collections::HashSet<TermId> = path_lits[..item.bound.min(path_lits.len())].iter().copied().collect();
                 for i in item.bound..trace.len() {
+                    if i > item.bound {
+                        prefix_set.insert(path_lits[i - 1]);
+                    }
                     let br = &trace[i];
                     for (k, alt) in br.alts.iter().enumerate() {
                         let mut expect: Vec<TermId> = path_lits[..i].to_vec();
@@ -495,6 +542,14 @@ pub fn explore(limits: &Limits, seed: u64, symbolic: bool, initial: &[(String, i
                             stack.push(Item { bound: i + 1, model: m, expect });
                             continue;
                         }
+                        // an UNSAT core found earlier for this very alternative, all of whose other literals are in
+                        // the current prefix, proves this alternative infeasible here too (no query needed)
+                        if let Some(cs) = cores.get(alt) {
+                            if cs.iter().any(|core| core.iter().all(|l| prefix_set.contains(l))) {
+                                rep.unsat_by_core += 1;
+                                continue;
+                            }
+                        }
                         let t0 = Instant::now();
                         let res = solver.check(&c, &expect);
                         rep.queries += 1;
@@ -507,7 +562,18 @@ pub fn explore(limits: &Limits, seed: u64, symbolic: bool, initial: &[(String, i
                                     rep.complete = false;
                                 }
                             }
-                            Some(false) => rep.unsat += 1,
+                            Some(false) => {
+                                rep.unsat += 1;
+                                if let Some(core) = solver.unsat_core() {
+                                    if core.contains(alt) && core.len() <= 12 {
+                                        let rest: Vec<TermId> = core.into_iter().filter(|l| l != alt).collect();
+                                        let e = cores.entry(*alt).or_insert_with(Vec::new);
+                                        if e.len() < 64 {
+                                            e.push(rest);
+                                        }
+                                    }
+                                }
+                            }
                             None => {
                                 rep.unknown += 1;
                                 rep.complete = false;
